@@ -56,6 +56,8 @@ prop("C03",
            thorough={"params": {"walops": 2, "wallimit": 2, "ntx": 3, "nops": 2, "nops2": 2}, "max_paths": 300000, "budget": "1500s"}),
          H("txfile.VerifProgStore", "same with the 7-operation overwrite-log set and 3 committed pages", "walops=1", tiers=("thorough",),
            thorough={"params": {"walops": 1, "wallimit": 2, "setup": 3, "ntx": 2, "nops": 2, "nops2": 2}, "max_paths": 300000, "budget": "1500s"}),
+         H("txfile.VerifFault", "transactions that follow a failed one read and write correctly; a Commit that returns nil has written every page", "nops=1",
+           quick={"params": {"nops": 1}}, thorough={"params": {"nops": 2}, "max_paths": 300000, "budget": "1500s"}),
          H("txfile.VerifWriterOrder", "real background writer: per page the last scheduled write is the last one issued, syncs separate what was scheduled before/after them; sort.Slice ties nondeterministic",
            "3 messages (thorough 4) with symbolic page ids out of 2 (thorough 3), symbolic sync positions, writer runs when the producer blocks (thorough: 2 preemptions at sync operations)",
            thorough={"params": {"msgs": 4, "ids": 3, "preempt": 2}, "max_paths": 200000, "budget": "1200s"}),
@@ -106,7 +108,10 @@ REG_LEMMAS_THOROUGH = [
 ]
 
 prop("C04", bounds=PROG_BOUNDS, outside=PROG_OUT,
-     harnesses=REG_LEMMAS_QUICK + REG_LEMMAS_THOROUGH + [FREECYCLE, OVERFLOW] + variants("txfile.VerifProgOwn", "every id returned by Alloc/AllocN is >= 2, not live, not freed-but-committed, not internal; ownership partition after every commit",
+     harnesses=REG_LEMMAS_QUICK + REG_LEMMAS_THOROUGH + [FREECYCLE, OVERFLOW,
+               H("txfile.VerifRegionRoundTrip", "free-list entries survive serialization (a wrongly decoded region would make live pages allocatable after reopen)", "id<2^55, count in [1,2^32)"),
+               H("txfile.VerifProgAbort", "after Rollback / Close / a Commit that fails with an injected I/O error, follow-up allocations own their pages", "nops=2, pre=1",
+                 quick={"params": {"nops": 2, "pre": 1}}, thorough={"params": {"nops": 2, "pre": 2}, "max_paths": 300000, "budget": "1200s"})] + variants("txfile.VerifProgOwn", "every id returned by Alloc/AllocN is >= 2, not live, not freed-but-committed, not internal; ownership partition after every commit",
                         {"nops": 3, "ntx": 1}, {"nops": 2, "ntx": 2}, quick_vs=(0, 1)))
 
 # ------------------------------------------------------------------ C11
@@ -145,6 +150,8 @@ prop("C15",
      outside="receivers reached through longer histories (the checks use one prefix history); pq receivers are covered by the pq harnesses of this property",
      harnesses=[
          H("txfile.VerifMisuseLifecycle", "calls on finished / read-only transactions and their pages: documented error kind, no panic, nothing changes, file not blocked", "6 lifecycle states x 18 method groups"),
+         H("txfile.VerifShadow", "a read-only transaction gets InvalidPageID for page ids beyond its snapshot, also while a writer grows the file", "nops=2",
+           quick={"params": {"nops": 2, "pre": 1}}, thorough={"params": {"nops": 3, "pre": 1}, "max_paths": 300000, "budget": "1200s"}),
          H("txfile.VerifMisuseActive", "invalid operations in an active write transaction: documented error kind, state unchanged after rollback", "9 cases, symbolic page id"),
      ])
 
@@ -158,7 +165,10 @@ CHECKS["C04"]["bounds"] += "; free-list step lemmas: lists of <= 2 (thorough 3) 
 prop("C01", bounds=CRASH_BOUNDS,
      outside=PROG_OUT + "; torn writes at other byte positions; real OS durability semantics (the disk model is: a completed sync makes everything issued before it durable; un-synced writes persist in any subset); "
              "rejection of a torn header that equals neither image rests on FNV not colliding (concrete headers here, so it is evaluated, not assumed)",
-     harnesses=variants("txfile.VerifCrash", "recovery by the real Open code after a crash at any I/O boundary yields S or the complete S' (only once Commit was entered), recovered file fully operational",
+     harnesses=[H("txfile.VerifWriterBigBatch", "the data sync of a commit covers every queued page write, also beyond the writer's batch size (1024)", "1025 / 1525 / 2025 messages"),
+                H("txfile.VerifWriterOrder", "per page the last scheduled write is the last one issued (sort ties nondeterministic); syncs separate what was scheduled before/after", "3 messages, 2 page ids",
+                  thorough={"params": {"msgs": 4, "ids": 2, "preempt": 1}, "max_paths": 300000, "budget": "1200s"}),
+                OVERFLOW] + variants("txfile.VerifCrash", "recovery by the real Open code after a crash at any I/O boundary yields S or the complete S' (only once Commit was entered), recovered file fully operational",
                         {"nops": 1, "pre": 1}, {"nops": 2, "pre": 1, "fullmask": 1}, vs=(0, 1, 4), quick_vs=(0, 4)))
 
 # ------------------------------------------------------------------ C08
@@ -173,6 +183,7 @@ prop("C08",
          H("txfile.VerifFault", "same on an unbounded file", "variant 3", tiers=("thorough",), thorough={"params": {"nops": 2, "variant": 3}, "max_paths": 300000, "budget": "1500s"}),
          H("txfile.VerifOpenFault", "failing I/O while creating/opening: error (never a panic), no mapping left, later open works", "existing/new x prealloc x 6 kinds x 3 ordinals"),
          H("txfile.VerifCheckTruncate", "checkTruncate never cuts below the old state's extent, the new state's extent or the configured maximum", "all 64-bit markers/sizes < 2^40 pages"),
+         H("txfile.VerifWriterBigBatch", "more than 1024 queued writes ahead of a sync request: the sync still comes after all of them, the header write after the sync", "1025 / 1525 / 2025 messages"),
          H("txfile.VerifWriterSticky", "real writer: after the first failure nothing reaches the target until the reset sync; waiters released with the error; writer usable again", "3 messages (thorough: 4 + 2 preemptions)",
            thorough={"params": {"msgs": 4, "preempt": 2}}),
      ])
@@ -199,6 +210,8 @@ prop("C09", bounds=LOCK_BOUNDS,
            quick={"params": {"readers": 2, "writers": 2, "preempt": 1}}, thorough={"params": {"readers": 2, "writers": 2, "preempt": 2}, "max_paths": 400000, "budget": "900s"}),
          HS(200, "txfile.VerifLockProtocol", "same", "2R+1W, 2 preemptions",
            quick={"params": {"readers": 2, "writers": 1, "preempt": 2}}, thorough={"params": {"readers": 3, "writers": 1, "preempt": 2}, "max_paths": 400000, "budget": "900s"}),
+         H("txfile.VerifCloseConcurrent", "File.Close while a transaction is open: waits for it, does not block readers the writer's owner starts, no deadlock", "read-only / write transaction, commit / rollback",
+           thorough={"params": {"preempt": 1}}),
          H("txfile.VerifLockBalance", "every ending of a transaction (commit, rollback, close, failing commit; read-only close/commit/rollback) leaves the lock idle; Begin/BeginReadonly/Close return", "2 rounds x 7 endings, fault on write/sync at 2 ordinals"),
          HS(100, "txfile.VerifFileConcurrent", "writer vs readers on the real File: no deadlock, Close returns", "1 reader, 1 preemption",
            quick={"params": {"readers": 1, "preempt": 1}}, thorough={"params": {"readers": 1, "preempt": 2}, "max_paths": 400000, "budget": "1200s"}),
@@ -254,6 +267,9 @@ prop("C06", bounds=PQ_BOUNDS + "; crash at every index of the I/O log of a flush
            "3 sizes (quick) / 5 sizes (thorough)", quick={"params": {"nsizes": 3}}, thorough={"params": {"nsizes": 5}, "max_paths": 400000, "budget": "1500s"}),
          H("pq.VerifQueueReopen", "clean reopen at a symbolic point: exactly flushed - ACKed events remain, reading resumes at the first un-ACKed event", "2 events x 3 sizes",
            quick={"params": {"events": 2, "nsizes": 3}}, thorough={"params": {"events": 2, "nsizes": 6}, "max_paths": 400000, "budget": "1500s"}),
+         H("pq.VerifQueueFault", "a write/sync failure inside the transaction of a flush or an ACK: error, retry succeeds, nothing lost or duplicated, later flushes re-using freed pages do not disturb earlier events, reopen",
+           "2 sizes x 2 kinds x 3 ordinals x flush/ACK x reopen", quick={"params": {"nsizes": 2}}, thorough={"params": {"nsizes": 4, "faultords": 5}, "max_paths": 400000, "budget": "1500s"}),
+         H("txfile.VerifWriterBigBatch", "durability of large flushes: the data sync covers more than 1024 queued page writes", "1025 / 1525 / 2025 messages"),
      ])
 
 prop("C12", bounds="bounded file of 64 pages, events of 2009 / 993 / 4980 bytes appended until the queue reports an error, drained with ACK steps of 1 or 2, refilled (2 cycles)",
@@ -271,6 +287,8 @@ prop("C17", bounds=PQ_BOUNDS, outside=PQ_OUT,
          H("pq.VerifQueueFIFO", "Reader.Available when events are abandoned (Next after no / partial Read) and when more events arrive at the tail", "2 events x 2 sizes x 3 read modes",
            quick={"params": {"events": 2, "nsizes": 2, "skip": 1}}, thorough={"params": {"events": 2, "nsizes": 3, "skip": 1}, "max_paths": 400000, "budget": "1500s"}),
          H("pq.VerifQueueFull", "counters on a full file and after draining", "3 sizes"),
+         H("pq.VerifQueueChunks", "Flushed callback and counters when Write itself flushes completed events (multi-page event in large chunks)", "3 first sizes x chunkings"),
+         H("pq.VerifQueueMisuse", "a rejected ACK (more than pending) leaves Pending / Active unchanged", "11 cases"),
      ])
 
 prop("C13", bounds=PQ_BOUNDS + "; one producer goroutine (Write, Next, optional Flush per event, final Flush) and one consumer goroutine (Begin, Next, Read, Done, ACK(1) per event, bounded polling) "
